@@ -376,6 +376,24 @@ func crashMain(a []string) {
 				resImg["scanstat"] = s2.exec("scanstat")
 				// recovery must leave a directory that keeps working: write, restart, read
 				resImg["put"] = s2.exec("put 7a7a7a x5a")
+				// a later committed batch must not seal the leftovers of a batch that died before its commit
+				s2.exec("bnew 0 7999999")
+				s2.exec("bput 7a7a7b x5b")
+				resImg["bcommit"] = s2.exec("bcommit")
+				s2.exec("bdrop")
+				if opts["postmerge"] == "1" {
+					// after recovery: delete the first recovered key, run a complete Merge, restart (adoption).
+					// A merge interrupted earlier must not leak into this one.
+					d := s2.exec("dump")
+					if i := strings.Index(d, " "); i > 0 {
+						if f := strings.Fields(d); len(f) > 2 {
+							first := strings.SplitN(strings.SplitN(f[2], ",", 2)[0], "=", 2)[0]
+							resImg["victim"] = first
+							resImg["del"] = s2.exec("del " + first)
+						}
+					}
+					resImg["merge"] = s2.exec("merge")
+				}
 				resImg["close"] = s2.exec("close")
 				resImg["listing"] = listDir(filepath.Join(work, "d"))
 				resImg["mergedir"] = listDir(filepath.Join(work, "d-merge"))
